@@ -17,7 +17,8 @@ func init() {
 			"D2 every Go slice/map and every collection (anything offering AsArray) returned by an exported method or class function is allocated in that call (or by a callee whose result is), including the storage fields of newly built objects, and does not alias a parameter's or the receiver's storage; " +
 			"D3 every bulk method touches its operand sequence only through the snapshot accessors GetSize/IsEmpty/AsArray/GetIterator (directly or through a callee with the same discipline), so passing the receiver itself behaves like passing a copy." +
 			" Also: a universal constructor never hands an argument back as the new collection; a result and a value stored into the receiver are never carved out of one allocation; association cells are not shared between catalogs." +
-			" Round 7: no nil literal reaches a collection-typed result; the goroutine of Join does not read the caller's sequence after the helper returned.",
+			" Round 7: no nil literal reaches a collection-typed result; the goroutine of Join does not read the caller's sequence after the helper returned." +
+			" Rounds 8-9: no exported function writes through a slice parameter.",
 		NotDecided:  "sharing of pointers stored as element values (associations returned by a catalog's array view are the catalog's own objects: the property speaks of Go arrays and maps, and so does the rule); that the copies have the right content.",
 		Run:         runC18,
 		Assumptions: []string{"standard-library callees (fmt, reflect, strconv, sort, copy/append builtins) do not retain their slice arguments"},
